@@ -27,14 +27,15 @@ LB = 'lrlex::ctbuilder::CTLexerBuilder<'
 PATH_THROUGH = Body.THROUGH + ('expect', 'unwrap', 'as_ref', 'as_path', 'as_os_str', 'to_path_buf')
 
 EXEMPT = {
-    'output_path': 'location of the output only; a different path is a different file',
-    'inspect_rt': 'a caller-supplied callback that cannot be serialised; it receives, but does not shape, the generated code',
-    'phantom': 'PhantomData',
-    'grammar_src': 'in-memory grammar text (unstable API): outside the file-based histories C18 quantifies over',
-    'from_ast': 'in-memory AST (unstable API): outside the file-based histories C18 quantifies over',
-    'inspect_callback': 'test-only hook',
+    'output_path': 'location of the output only: it is used to create/read/remove the file, never to shape its text; a different path is a different file',
+    'phantom': 'PhantomData: no value; the type parameters it stands for are checked by R18.7',
+    'inspect_callback': 'field exists only under cfg(test)',
     'grammar_path': None,  # placeholder, must be covered (never exempt)
 }
+# NOT exempt (each was, until an audit of this table): `inspect_rt` - the callback can fail the build (CTLexerBuilder installs
+# one that runs the grammar's test_files through lexer and parser) and is not called on the skip path; `grammar_src` and
+# `from_ast` - in-memory sources that bypass the grammar file (setters exist only with feature _unstable_api).  All three are
+# genuine ways to end in a state a clean build would not produce; they are recorded as known findings, not excused.
 
 
 def self_fields(b, names):
@@ -111,6 +112,10 @@ def r181(facts, res):
         sub = self_fields_blocks(b, names, after)
         for f in sub:
             B.setdefault(f, 'build (after the skip decision)')
+    # ... and everything build() reads BEFORE the skip decision as well: what is read there shapes the grammar object that is
+    # compiled (in-memory sources instead of the file whose age the skip decision looks at, the yacc kind, ...)
+    for f in self_fields(b, names):
+        B.setdefault(f, 'build (before the skip decision)')
     res.count('R18.1 fields read by code generation', len(B))
     res.count('R18.1 fields in the cache key', len(A))
     for f in sorted(B):
@@ -123,6 +128,44 @@ def r181(facts, res):
             res.bad(R, key, loc_of(rc), 'builder setting `%s` is read by %s but is not part of the cache key: changing it does not cause regeneration' % (f, B[f]))
     if len(B) < 6:
         res.lost(R, 'only %d builder fields found in the code generator: field tracking lost' % len(B))
+
+
+def r187(facts, res):
+    """type parameters of the builder that the generated code NAMES (core::any::type_name::<T>() in the cone of output_file)
+    are part of the cache key too (type_name::<T>() in rebuild_cache): with another StorageT / LexerTypesT a clean build emits
+    different text, so an unchanged grammar must not be taken for an unchanged configuration"""
+    R = 'R18.7'
+    import re as _re
+    rc = facts.one(R, 'CTParserBuilder::rebuild_cache', crate='lrpar', name='rebuild_cache', impl_re='^' + PB)
+    of = facts.one(R, 'CTParserBuilder::output_file', crate='lrpar', name='output_file', impl_re='^' + PB)
+    cg = CallGraph(facts, ['lrpar'])
+    cone = cg.cone([of.path])
+    def params_of(bodies):
+        out = {}
+        for fb in bodies:
+            for bb, t in fb.calls_named('type_name'):
+                c = callee_of(t)
+                if not c or not c['path'].startswith('core::any::type_name'):
+                    continue
+                for a in c.get('args') or []:
+                    # base generic parameters mentioned: `StorageT`, `<LexerTypesT as ..>::LexemeT` -> LexerTypesT
+                    for m in _re.finditer(r'(?<![\w:])([A-Z][A-Za-z0-9]*T)(?![\w:])', a):
+                        if '::' + m.group(1) in a and not a.startswith(m.group(1)) and ('<' + m.group(1) + ' as') not in a:
+                            continue
+                        out.setdefault(m.group(1), (fb, bb))
+        return out
+    gen_bodies = [cg.bodies[p] for p in sorted(cone) if (cg.bodies[p].impl_of or '').startswith(PB) or cg.bodies[p].kind == 'closure']
+    G = params_of(gen_bodies)
+    K = params_of([rc] + list(facts.closures_of(rc)))
+    res.floor(R, 'type parameters named by the generated code', len(G), 2)
+    for tp in sorted(G):
+        fb, bb = G[tp]
+        key = 'type-param:' + tp
+        if tp in K:
+            res.ok(R, key, loc_of(rc), 'named by the generated code (%s) and part of the cache key' % strip_generics(fb.path).split('::')[-1])
+        else:
+            res.bad(R, key, loc_of(fb, bb), 'the generated code spells out type parameter `%s` (type_name in %s) but the cache key does not: building the same grammar with '
+                    'another `%s` reports "not regenerated" and leaves the module generated for the old type in place' % (tp, strip_generics(fb.path).split('::')[-1], tp))
 
 
 def self_fields_blocks(b, names, blocks):
@@ -487,6 +530,7 @@ def r186(facts, res):
 
 def run(facts, res):
     r186(facts, res)
+    r187(facts, res)
     r181(facts, res)
     r182(facts, res)
     r183(facts, res)
